@@ -321,6 +321,9 @@ func c14(r *Report, s *Sem) {
 		}
 	}
 
+	R6 := r.Rule("R6", "closing really closes: every Transport.Close implementation closes its underlying connection unless the handle itself is nil, and channel.Close reaches Transport.Close on every path — 'not connected' (end of stream seen) is not 'closed'", 3)
+	checkCloseReallyCloses(r, s, R6)
+
 	// ---- R5
 	callers := p.callersOf(fn)
 	okGo := len(callers) == 1
